@@ -4,7 +4,7 @@ manifest is always schema-valid and in step with what the driver implements)."""
 import json, subprocess
 
 HOOK_COMMITS = ["ff49be5"]
-FIX_COMMITS = ["20bf16f", "aefc590", "f10f830", "24ec5ad", "9659f5f", "7e5c136", "f869cf2", "0e309c1"]
+FIX_COMMITS = ["20bf16f", "aefc590", "f10f830", "24ec5ad", "9659f5f", "7e5c136", "f869cf2", "0e309c1", "9424101", "82caa03"]
 
 NA = {
  "C12": "codec round-trip is a pure function of (input bytes, level); nothing in it depends on scheduling, time, I/O or faults, so a simulator would only be an input generator in disguise (DESIGN.md section 0)",
@@ -57,6 +57,21 @@ CHECKS.update({
    "two caches / two servers sharing an origin; named, unnamed, absent-key and absent-cache purges placed before, during (origin withheld) and after fetches with expiry, with and without the simulated store; oracles: no hit from an entry installed before a completed purge, untouched keys / caches keep hitting, persisted copy gone, purge never waits for an in-flight fetch, all waiters complete.",
    "a fetch still in flight when the purge runs may legitimately be installed afterwards (stated exception in C01/C18); unnamed purges run as one atomic scheduler section because sync.Map iteration order is not reproducible",
    "deterministic simulation: purge x fetch x expiry histories under a seeded scheduler"),
+})
+
+CHECKS.update({
+ "C08": ("fault_enumeration", "7.8",
+   "crash / graceful stop + restart on a simulated disk (durable map + acknowledged-but-unsynced writes; on a kill each unsynced write is independently kept, lost or torn at a random offset); the kill is a controller action taken at an arbitrary scheduler step, so it lands before, inside and after every yield point of every task (inside Cacheable after the waiters were released and before the save, while a Set is parked in the store, with fetches in flight); evict/reload histories with an LRU smaller than the working set; store TTL enforcement exact / late / never. Oracle: anything served without upstream contact after a restart or reload is an unaltered origin reply for that key inside its original lifetime with Age continuing from the original fetch; every request after the restart completes and is served normally.",
+   "badger / redis / mongo are never run: what is verified is pike's use of a store (what it writes, when, with which TTL, what it does with what it reads back), not the engines' own crash safety; os.Exit skipping store.Close in main is outside the simulation",
+   "deterministic simulation: crash-point sampling over scheduler steps on a simulated disk"),
+ "C09": ("fault_enumeration", "7.9",
+   "applicable part only: records captured from the run itself (hit records with identity and gzip/br variants, multi-valued and non-ASCII headers, empty and large bodies, hit-for-pass records) are fed back through the real lookup path cut at every offset of a window (thorough tier: every offset 0..len-1 of the record = exhaustive per record), with seeded single-bit flips and with random bytes; no panic, no stuck request, allocation bounded by a multiple of the record size, every truncated record is a miss, and the key is neither a permanent error nor an immortal entry afterwards.",
+   "the algebraic Bytes/FromBytes round trip over arbitrary structured entries and coverage-guided mutation are pure input testing and are not claimed; bit flips that leave the record structurally valid cannot be detected by pike (the format has no integrity check): for flips only robustness is asserted",
+   "deterministic simulation: torn / corrupted records injected at the store seam, truncation enumeration"),
+ "C10": ("fault_enumeration", "7.10",
+   "per store call a drawn outcome - Get {ok, not-found although present, error, delayed with pike's locks held, truncated, garbage}, Set {ok, error, delayed, silently dropped}, Delete {ok, error, delayed} - landing inside operations with waiters, expiry and purges in progress; liveness, freshness (stale-hit, Age) and response-integrity oracles stay armed unchanged, plus the single-flight/retention oracle when the LRU is large; final probes after every lifetime (no immortal entry, no permanent error).",
+   "single bit flips inside an otherwise well-formed record are not part of this fault plan (undetectable without an integrity check in the format; robustness under flips is covered by C09); purge effectiveness on the persisted copy is not asserted when the Delete itself was failed by the plan",
+   "deterministic simulation: per-call store fault plans under concurrent waiters, expiry, purge"),
 })
 
 PENDING = {}
